@@ -173,13 +173,23 @@ def compile_probe(spec, hook, module_name='ginsim_probes'):
            '  def __init__({ssig}):\n'
            '    self.got = _hook({n!r}, {recv}, self)\n').format(
                n=name, ssig=ssig, doc=doc, recv=recv)
+  elif kind == 'callable_obj':
+    # an instance with __call__ (registrable through external_configurable)
+    ssig = 'self' + (', ' + sig if sig else '')
+    src = ('class _{n}_type:\n  {doc!r}\n'
+           '  def __call__({ssig}):\n'
+           '    return _hook({n!r}, {recv}, None)\n'
+           '{n} = _{n}_type()\n').format(n=name, ssig=ssig, doc=doc, recv=recv)
   elif kind == 'cls_plain':
     src = 'class {n}:\n  {doc!r}\n  pass\n'.format(n=name, doc=doc)
   else:
     raise ValueError('unknown probe kind %r' % kind)
   exec(compile(src, '<probe %s>' % name, 'exec'), g)  # pylint: disable=exec-used
   obj = g[name]
-  obj.__module__ = module_name
+  try:
+    obj.__module__ = module_name
+  except AttributeError:
+    pass
   return obj, src
 
 
